@@ -63,11 +63,13 @@ def strat_case(draw, tier):
         pos = n - 1 - draw(st.integers(0, w))
     else:
         pos = draw(st.integers(0, n - 1))
+    both_norm = draw(st.integers(0, 9)) == 0  # no standardisation at all: the data are used as they are
     return {"n": n, "kind": kind, "nbins_max": nbins_max, "spacing": spacing, "pulse": pulse, "pos": pos, "w": w,
             "amp": draw(st.sampled_from([3.0, 8.0, 20.0])), "seed": draw(st.integers(0, 2**31 - 1)),
             "a": draw(st.sampled_from([1e-2, 0.5, 3.0, 100.0, 1.0, 7.25])), "b_sig": draw(st.floats(-100, 100, allow_nan=False)),
-            "loc": draw(st.sampled_from(["median", "median", "mean", "norm"])),
-            "scale": draw(st.sampled_from(["iqr", "iqr", "mad", "std", "biweight", "gapper", "norm"]))}
+            "amp_exp": draw(st.sampled_from([0, -30, 30, -34])),
+            "loc": "norm" if both_norm else draw(st.sampled_from(["median", "median", "mean", "norm"])),
+            "scale": "norm" if both_norm else draw(st.sampled_from(["iqr", "iqr", "mad", "std", "biweight", "gapper", "norm"]))}
 
 
 def make_data(case):
@@ -108,7 +110,11 @@ def check_responses(case, ctx):
 
     from vlib.strategies import relayout
 
-    x = relayout(make_data(case), ["C", "strided_view", "reversed_view"][case["seed"] % 3])
+    x = make_data(case)
+    if case.get("loc") == "norm" and case.get("scale") == "norm":
+        # nothing is standardised: the unit of the data is whatever the caller uses (1e-9 or 1e+9 of something)
+        x = (x * np.float32(2.0 ** case.get("amp_exp", 0))).astype(np.float32)
+    x = relayout(x, ["C", "strided_view", "reversed_view"][case["seed"] % 3])
     n = case["n"]
     ctxt = {k: case[k] for k in ("n", "kind", "nbins_max", "spacing", "pulse", "pos", "w", "seed")}
     try:
